@@ -151,3 +151,44 @@ CASES = [
     S("s-mf-populate-swapped", MF, "populate called with the quantiles of another variable",
       (POP, "            self._populate_results_ci(_bootstrap_samples, self._ci_quantiles[::-1])\n")),
 ]
+
+# ---------------------------------------------------------------------- statement census (L2)
+RET1 = "        control_feature_names=control_feature_names,\n    )\n    return result\n\n\ndef generate_bootstrap_samples("
+CASES += [
+    R("r-census-assert-moved", B, "a second pure assert and the existing one moved between the two calls",
+      ("    assert random_state is not None, \"Must specify random_state\"\n\n" + SAMPLE,
+       SAMPLE + "    assert random_state is not None, \"Must specify random_state\"\n    assert len(data.columns) > 0\n")),
+    R("r-census-create-kw-order", B, "keywords of DisaggregatedResult.create reordered, comment between the two calls",
+      (CREATE + "        annotated_functions=annotated_functions,\n        sensitive_feature_names=sensitive_feature_names,\n",
+       "    # evaluate the metrics on the resampled frame\n" + CREATE + "        sensitive_feature_names=sensitive_feature_names,\n        annotated_functions=annotated_functions,\n")),
+    R("r-census-stream-pure-local", B, "pure local bindings (dtype, count alias read in the assert only) in generate_bootstrap_samples",
+      ("    assert n_samples >= 1\n    if random_state is None:\n", "    dt = np.uint32\n    assert n_samples >= 1\n    logger.debug(\"%s\", dt)\n    if random_state is None:\n")),
+    R("r-census-stream-else-raise-type", B, "the unsupported-seed branch raises TypeError",
+      ("        raise ValueError(f\"Unsupported random_state: {random_state}\")", "        raise TypeError(f\"Unsupported random_state: {random_state!r}\")")),
+    S("s-census-drop-duplicates-inplace", B, "the resampled frame loses its repeated rows (in-place call between sample and create)",
+      (SAMPLE, SAMPLE + "    sampled_data.drop_duplicates(inplace=True)\n"), expect="refused"),
+    S("s-census-drop-duplicates-chained", B, "`.drop_duplicates()` chained on data.sample(..)",
+      ("axis=0, ignore_index=True\n    )\n\n    result = DisaggregatedResult", "axis=0, ignore_index=True\n    ).drop_duplicates()\n\n    result = DisaggregatedResult"), expect="refused"),
+    S("s-census-column-overwritten", B, "a column of the resampled frame is overwritten before the metrics are evaluated",
+      (SAMPLE, SAMPLE + "    sampled_data[\"y_pred\"] = data[\"y_pred\"].values\n"), expect="refused"),
+    S("s-census-sort-inplace", B, "the resampled frame is re-sampled once more inside an if between the two calls",
+      (SAMPLE, SAMPLE + "    if len(sampled_data) > 2:\n        sampled_data = sampled_data.iloc[:-1]\n"), expect="refused"),
+    S("s-census-data-rebound", B, "`data` is cut before it is sampled",
+      (SAMPLE, "    data = data.iloc[: max(1, len(data) // 2)]\n" + SAMPLE), expect="refused"),
+    S("s-census-create-args-crossed", B, "create gets the control features as sensitive features",
+      ("    result = DisaggregatedResult.create(\n        data=sampled_data,\n        annotated_functions=annotated_functions,\n        sensitive_feature_names=sensitive_feature_names,\n",
+       "    result = DisaggregatedResult.create(\n        data=sampled_data,\n        annotated_functions=annotated_functions,\n        sensitive_feature_names=control_feature_names or sensitive_feature_names,\n"),
+      expect="refused"),
+    S("s-census-result-patched", B, "the DisaggregatedResult is modified after it was created",
+      (RET1, "        control_feature_names=control_feature_names,\n    )\n    result.overall = result.overall * 0\n    return result\n\n\ndef generate_bootstrap_samples("),
+      expect="refused"),
+    S("s-census-stream-data-inplace", B, "generate_bootstrap_samples de-duplicates `data` in place before the loop",
+      ("    result = []\n" + LOOP, "    data.drop_duplicates(inplace=True)\n    result = []\n" + LOOP), expect="refused"),
+    S("s-census-stream-loop-patch", B, "every sample is patched inside the loop before it is appended",
+      ("            control_feature_names=control_feature_names,\n        )\n        result.append(nxt)\n\n    return result\n",
+       "            control_feature_names=control_feature_names,\n        )\n        nxt.overall = nxt.overall.round(1)\n        result.append(nxt)\n\n    return result\n"),
+      expect="refused"),
+    S("s-census-stream-continue", B, "every second sample is skipped",
+      (LOOP, "    for i in range(n_samples):\n        if i % 2:\n            continue\n        nxt = generate_single_bootstrap_sample(\n            random_state=rs[i],\n"),
+      expect="refused"),
+]
